@@ -223,14 +223,14 @@ static void barrierScenario(const char* kind, unsigned P, int phases, uint64_t s
 }
 
 // ---- S3: entry to and return from parallel loops ----------------------------------------------
-static void regionScenario(unsigned threads, int which, bool fast, uint64_t s) {
+static void regionScenario(unsigned threads, int which, bool fast, uint64_t s, int reps = 3) {
   const char* names[] = {"on_each", "do_all", "do_all_steal", "for_each", "pool.run"};
   begin(std::string("region:") + names[which] + (fast ? ":fast" : ""), threads, s);
   galois::setActiveThreads(threads);
   auto& tp = galois::substrate::getThreadPool();
   if (fast) tp.burnPower(threads);
   arm(threads, s);
-  for (int rep = 0; rep < 3; ++rep) {
+  for (int rep = 0; rep < reps; ++rep) {
     PW(300);                                          // written by the caller before the loop
     auto body = [&](unsigned tid) { PR(300); PW(310 + tid); };
     std::vector<int> items(threads * 2);
@@ -306,6 +306,10 @@ int main(int argc, char** argv) {
         for (int w = 0; w < 5; ++w) regionScenario(t, w, false, rng.next());
         regionScenario(t, 0, true, rng.next());
         regionScenario(t, 4, true, rng.next());
+        // bursts of back-to-back regions with an empty body: the next wake-up is posted while the workers are still on their
+        // way back to sleep
+        regionScenario(t, 4, false, rng.next(), 60);
+        regionScenario(t, 0, false, rng.next(), 60);
       }
       forEachScenario<W::PerSocketChunkFIFO<2>>("PerSocketChunkFIFO<2>", t, rng.next());
       forEachScenario<W::ChunkLIFO<1>>("ChunkLIFO<1>", t, rng.next());
